@@ -17,17 +17,16 @@ Theorem C07_reader_zero_extends : forall r n, bytes_ok (rdata r) -> 0 <= n -> 0 
 Proof. exact read_bits_spec. Qed.
 Print Assumptions C07_reader_zero_extends.
 
-(* whatever deserialize returns is valid for the type, canonical, and a fixed point of serialize -> deserialize.
-   PARTIAL: proved for types without float fields and with extents below 2^35 bits ([plain]).  Missing for float fields:
-   the arithmetic fact  fwiden w (fcast c w (fwiden w bits)) = fwiden w bits  (re-encoding a decoded float is exact); the
-   model's float functions are compared bit-exactly with struct.pack/unpack on every generated case and the fixed point is
-   checked on the implementation for every decoded value (harness/props/c07.py), but the Coq proof of that fact is not done. *)
-Theorem C07_valid_fixpoint_partial : forall t b hdr v,
+(* whatever deserialize returns is valid for the type, canonical, and a fixed point of serialize -> deserialize - for every
+   type, float fields included (re-encoding a decoded float is exact: Serdes/FloatIdem.v, proved by arithmetic on the integer
+   model for binary16/32/64).  [plain t]: every extent is below 2^35 bits, so that the byte length of every nested object fits
+   its 32-bit delimiter header (see C06_header_wraps_refuted for what happens otherwise). *)
+Theorem C07_valid_fixpoint : forall t b hdr v,
   wft t = true -> serializable t = true -> is_composite t = true -> hdr_ok t hdr = true -> plain t = true -> bytes_ok b ->
   deserialize t b hdr = Ok v ->
   validb t v = true /\ canon t v = v /\ exists bs, serialize t v hdr = Ok bs /\ deserialize t bs hdr = Ok v.
 Proof. exact valid_fixpoint. Qed.
-Print Assumptions C07_valid_fixpoint_partial.
+Print Assumptions C07_valid_fixpoint.
 
 (* implicit truncation, the form users rely on: bytes after a complete representation are ignored *)
 Theorem C07_truncation_ser : forall t v hdr bytes junk,
